@@ -416,6 +416,33 @@ fn grid_op(h: &H, idx: u64, def: &str, kind: &str, touches: &[bool; 4], rng: &mu
                 }
             }
         }
+        // the edge of the coverage, located on the operator itself: bisect the forward count
+        // between the point inside and the point outside, then probe both sides of the boundary
+        // at distances from 1e-9 to 1e-3 of the segment (the inverse iteration of a datum shift
+        // leaves the coverage from such points)
+        if kind != "geo-null" {
+            let at = |s: f64| -> [f64; 4] { [x[0] + s * (p[0] - x[0]), x[1] + s * (p[1] - x[1]), x[2] + s * (p[2] - x[2]), x[3]] };
+            let (mut lo, mut hi) = (0.0_f64, 1.0_f64);
+            for _ in 0..40 {
+                let mid = 0.5 * (lo + hi);
+                if apply1(&ctx, op, D::F, at(mid)).1 == 1 {
+                    lo = mid;
+                } else {
+                    hi = mid;
+                }
+            }
+            h.class(&format!("coverage-edge-located/{name}"));
+            for _ in 0..8 {
+                let delta = 10f64.powf(rng.range(-9.0, -3.0)) * if rng.chance(0.5) { 1.0 } else { -1.0 };
+                let q = at(lo + delta);
+                if predicates(h, idx, &ctx, op, D::F, def, name, &q, touches, false).is_none() {
+                    return;
+                }
+                if invertible && predicates(h, idx, &ctx, op, D::I, def, name, &q, touches, false).is_none() {
+                    return;
+                }
+            }
+        }
         // hostile
         let p = hostile_tuple(rng, &x);
         if predicates(h, idx, &ctx, op, D::F, def, name, &p, touches, false).is_none() {
